@@ -25,7 +25,7 @@ TECHNIQUE = ("runtime monitoring with fault injection: fork-and-kill enumeration
 RULE = ("victims sow / re-sow / grow(i) / Crop.grow(subset) / grow_missing / reap on raw, Runner, Harvester and Sampler crops "
         "(h5netcdf and joblib harvesters; TMPDIR on another file system where the machine has one; copies through sendfile modelled as chunked writes) of 2-4 batches (defined by batchsize, or by a num_batches that does not divide the case count) with multi-chunk results; the process is killed before EVERY mutating event (mkdir, create/truncate, "
         "each of up to three write prefixes per write, close, rename/replace, each unlink/rmdir of the clean-up, HDF5 "
-        "create and close); for sow / re-sow kills the recovery is also run after already-queued workers grew the batches that exist; thorough adds a second kill during recovery on sampled first states; farmers with resources= whose recovery re-sows through the crop restored by name; one (scenario, crash "
+        "create and close); for sow / re-sow kills the recovery is also run after already-queued workers grew the batches that exist; thorough adds a second kill during recovery on sampled first states; farmers with resources= whose recovery re-sows through the crop restored by name; twelve-batch crops; harvester files named by a pathlib.Path; recoveries that first peek with a partial reap and reap with the same object after another object grew the rest; one (scenario, crash "
         "point) is one execution; all are non-trivial")
 ASSUMPTIONS = [
     "kill = process death at a Python-level file operation boundary (no reordering of completed writes, no power loss, no NFS)",
